@@ -1,6 +1,7 @@
 package sim
 
 import (
+	"bytes"
 	"fmt"
 	"math/big"
 	"sort"
@@ -278,7 +279,7 @@ func runC10(rc *RunCtx) {
 			case 3:
 				upd = []sdk.Msg{&ct.MsgUpdateTokenController{From: e.M.Owner, NewTokenController: nw}}
 			}
-			upd = append(upd, &ct.MsgRemoveRemoteTokenMessenger{From: "not-the-owner", DomainId: 0})
+			upd = append(upd, &ct.MsgRemoveRemoteTokenMessenger{From: Nobody(), DomainId: 0})
 			e.Exec(Tx{Msgs: upd, Note: "C10 rolled-back role update"})
 			for ti, at := range adminTypes {
 				if at.Role != role {
@@ -487,7 +488,7 @@ func runC11(rc *RunCtx) {
 
 // ---------------------------------------------------------------- C12 matrix
 
-var c12Flows = []string{"send", "send-with-caller", "deposit", "deposit-with-caller", "replace", "replace-deposit", "receive-other", "receive-mint", "receive-other-long", "send-long", "receive-near-module"}
+var c12Flows = []string{"send", "send-with-caller", "deposit", "deposit-with-caller", "replace", "replace-deposit", "receive-other", "receive-mint", "receive-other-long", "send-long", "receive-near-module", "send-to-messenger", "send-with-caller-to-messenger", "replace-to-messenger"}
 
 func runC12(rc *RunCtx) {
 	nonce := uint64(50000)
@@ -507,6 +508,7 @@ func runC12(rc *RunCtx) {
 		e.Exec(Tx{Msgs: msgs1(pg.ValidDeposit(false, 0))})
 		e.Exec(Tx{Msgs: msgs1(pg.ValidSend(true))})
 		e.Exec(Tx{Msgs: msgs1(pg.ValidDeposit(true, 0))})
+		e.Exec(Tx{Msgs: msgs1(&ct.MsgSendMessage{From: Acct(UserIx), DestinationDomain: 1, Recipient: e.M.Messengers[1], MessageBody: []byte("seed for replace-to-messenger")})})
 		setFlags := func(sr, bm bool) {
 			if e.M.PausedSR != sr {
 				if sr {
@@ -543,6 +545,22 @@ func runC12(rc *RunCtx) {
 				in := &InMsg{Version: 0, Src: 1, Dst: 4, Nonce: nonce, Sender: Structured32(1), Recipient: Structured32(2), Caller: make([]byte, 32), Body: []byte("hi")}
 				raw := in.Bytes()
 				m = &ct.MsgReceiveMessage{From: Acct(UserIx), Message: raw, Attestation: e.Attest(raw, 0)}
+			case "send-to-messenger":
+				m = &ct.MsgSendMessage{From: Acct(UserIx), DestinationDomain: 1, Recipient: e.M.Messengers[1], MessageBody: []byte("to the messenger")}
+			case "send-with-caller-to-messenger":
+				m = &ct.MsgSendMessageWithCaller{From: Acct(UserIx), DestinationDomain: 2, Recipient: e.M.Messengers[2], MessageBody: []byte("x"), DestinationCaller: Structured32(5)}
+			case "replace-to-messenger":
+				for _, n := range sortedNonces(e.M.Emitted) {
+					c := e.M.Emitted[n]
+					if !c.ByModule {
+						if d, err := ref.DecodeMessage(c.Original); err == nil && bytes.Equal(d.Recipient, e.M.Messengers[d.DstDomain]) {
+							m = &ct.MsgReplaceMessage{From: Bech(c.Sender[12:32]), OriginalMessage: c.Original, OriginalAttestation: e.Attest(c.Original, 0), NewMessageBody: []byte("again"), NewDestinationCaller: make([]byte, 32)}
+						}
+					}
+				}
+				if m == nil {
+					return
+				}
 			case "receive-near-module":
 				nonce++
 				in := StdInbound(nonce, 1, big.NewInt(9))
